@@ -803,6 +803,12 @@ def enum_story_messages(sids, ro_id='RO1', max_sources=3, mid=2000, unknown='ZZ-
                 yield 'EAStoryMove', env(B.ea_story_move(ro_id, None, list(srcs), with_target=False))
             else:
                 yield 'EAStoryMove', env(B.ea_story_move(ro_id, t, list(srcs)))
+    # the same source named twice (with and without another one in between)
+    for rep in ([a, a] for a in sids[:3]):
+        more = [x for x in sids if x != rep[0]][:1]
+        for srcs in (rep, rep[:1] + more + rep[:1], more + rep):
+            for t in [x for x in targets if x is not None and x not in srcs][:3]:
+                yield 'EAStoryMove', env(B.ea_story_move(ro_id, t, list(srcs)))
     for a in pool + ['']:
         for b in pool + ['']:
             yield 'EAStorySwap', env(B.ea_story_swap(ro_id, a, b))
@@ -843,6 +849,13 @@ def enum_item_messages(sid, iids, ro_id='RO1', max_sources=3, mid=2000,
             for r in refs:
                 yield 'roItemMoveMultiple', env(B.item_move_multiple(ro_id, s, list(srcs) + [r]))
                 yield 'EAItemMove', env(B.ea_item_move(ro_id, s, r, list(srcs)))
+        # the same source named twice (with and without another one in between)
+        for a in list(iids)[:3]:
+            more = [x for x in iids if x != a][:1]
+            for srcs in ([a, a], [a] + more + [a], more + [a, a]):
+                for r in [x for x in refs if x not in srcs][:3]:
+                    yield 'roItemMoveMultiple', env(B.item_move_multiple(ro_id, s, list(srcs) + [r]))
+                    yield 'EAItemMove', env(B.ea_item_move(ro_id, s, r, list(srcs)))
         for a in pool + ['']:
             for b in pool + ['']:
                 yield 'EAItemSwap', env(B.ea_item_swap(ro_id, s, a, b))
